@@ -344,6 +344,10 @@ class PulseSequence:
         if not np.allclose(dt_A, dt_B, rtol, atol):
             return False
 
+        if len(A.c_opers) != len(B.c_opers) or len(A.n_opers) != len(B.n_opers):
+            # Different number of operators (zip below would truncate)
+            return False
+
         # We require a certain reproducible order for the opers and coeffs so
         # that also after concatenation of different pulses they will be in a
         # deterministic order for comparison. Sort the hashes of the operators'
